@@ -1,0 +1,16 @@
+// apparmor.d - Full set of apparmor profiles
+// SPDX-License-Identifier: GPL-2.0-only
+
+//go:build verif
+
+// Machine-checked contracts for package prepare (comment-only; only part of the package
+// under the build tag "verif").
+package prepare
+
+// SetFlags.Apply ranges over the flags manifest (a map from profile name to flags): every
+// iteration rewrites the file named after its key, and the messages it collects are
+// console output. Distinct keys name distinct files.
+//@ func (SetFlags).Apply
+//@   opt prop=C02
+//@   trusted
+//@   opt maprange1=keyedfiles
